@@ -1,4 +1,7 @@
 ---------------------------- MODULE DvidPersist_mc ----------------------------
 EXTENDS DvidPersist, Json
-EmitWriteTable == (crashes = 0 /\ mem.vid = 1 /\ prog = <<>>) => PrintT(ToJson(WriteTable))
+EmitWriteTable == (crashes = 0 /\ mem.vid = 1 /\ prog = <<>>) =>
+    /\ PrintT(ToJson(WriteTable))
+    \* which of 230 consecutive mutation-id allocations after initMutationID persist the MUT key, for the code's stride of 100
+    /\ PrintT(ToJson([mutschedule |-> MutSchedule(0, 100, 100, 230)]))
 =============================================================================
